@@ -111,9 +111,9 @@ func tokenize(s string) ([]token, error) {
 		c, l := utf8.DecodeRuneInString(s[i:])
 
 		switch {
-		case unicode.IsSpace(c):
+		case c < utf8.RuneSelf && unicode.IsSpace(c):
 			// ignore
-		case unicode.IsLetter(c) || c == '_':
+		case isNameRune(c, true):
 			bt, bl := readBareword(s[i:])
 			tnr := tBare
 			if n, ok := keywords[asciiUpper(bt)]; ok {
@@ -176,13 +176,25 @@ func asciiUpper(s string) string {
 	}, s)
 }
 
+// SQLite: a name is made of ASCII letters, digits (not first), '_', and
+// every character beyond ASCII - letters or not, no-break spaces included.
+func isNameRune(r rune, first bool) bool {
+	switch {
+	case r >= utf8.RuneSelf:
+		return true
+	case r == '_':
+		return true
+	case unicode.IsLetter(r):
+		return true
+	case !first && unicode.IsDigit(r):
+		return true
+	}
+	return false
+}
+
 func readBareword(s string) (string, int) {
 	for i, r := range s {
-		switch {
-		case unicode.IsLetter(r):
-		case i > 0 && unicode.IsDigit(r):
-		case r == '_':
-		default:
+		if !isNameRune(r, i == 0) {
 			return s[:i], i
 		}
 	}
